@@ -143,6 +143,8 @@ class CoverpointBinCollectionModel(CoverpointBinModelBase):
             if len(self.bin_l) == len(oth.bin_l):
                 for i in range(len(self.bin_l)):
                     eq &= self.bin_l[i].equals(oth.bin_l[i])
+            else:
+                eq = False
             
         return eq
     
